@@ -22,7 +22,8 @@ PROP = 'C17'
 
 PROGRAMS = {
     'plain': 'addi x8, x8, 1\nnop\ndw 0x11223344\n',
-    'labels': 'start:\n  li x9, 1\n  addi x8, x8, 1\nloop:\n  beq x8, x0, done\n  call start\n  align 8\nmid:\n  j loop\ndone:\n  ret\nend:\n',
+    # (several labels share an address: reset / start, done / finish, end / eof)
+    'labels': 'reset:\nstart:\n  li x9, 1\n  addi x8, x8, 1\nloop:\n  beq x8, x0, done\n  call start\n  align 8\nmid:\n  j loop\ndone:\nfinish:\n  ret\nend:\neof:\n',
     'inc': 'include lib.asm\nmain:\n  addi x8, x8, LIBK\n  j libf\n',
     'defs': 'include GD32VF103.asm\nboot:\n  li t0, RCU_BASE_ADDR\n  sw t0, t0, 0\n',
     # a valid program with an intermediate constant of more decimal digits than str() converts (the -v listing prints every constant)
